@@ -464,6 +464,13 @@ func runC04(c *engine.Ctx) {
 
 	// ---- R8 the configured scopes are the enforced scopes ----
 	checkValidationExact(c, "R8")
+
+	// ---- R9 the session table consulted for every unauthenticated work/visitor connection is read under its lock
+	// (shared with C16.R1): a lookup racing with a login aborts the whole process, i.e. disturbs every session ----
+	c16MapsRule(c, engine.AnalyzeLocks(c.P), "R9")
+
+	// ---- R10 ----
+	checkSSHKeyTable(c, "R10")
 }
 
 // extractOf matches component idx of the result tuple of a call to obj.
@@ -936,4 +943,122 @@ func membershipLoop(f *ssa.Function) (listIdx, elemIdx int, ok bool) {
 		}
 	}
 	return 0, 0, false
+}
+
+// checkSSHKeyTable (R10): on the ssh gateway, a successful public-key authentication *is* the credential check of the
+// internal listener (the login that follows is exempted from the token). The callback accepts an offered key only when
+// it was found in the table of authorised keys, and that table is built from the file within the very call — a table
+// that outlives the call (filled again but never emptied) keeps accepting keys the operator has removed.
+func checkSSHKeyTable(c *engine.Ctx, rule string) {
+	c.Rule(rule, "ssh gateway: every accepting exit of ServerConfig.PublicKeyCallback lies on a path where a comma-ok lookup keyed by the offered key succeeded, in a map that was made during this call (by the callback or a function it calls) or cleared before it was filled")
+	p := c.P
+	n := 0
+	for _, f := range p.RepoFuncs() {
+		if f.Pkg == nil || f.Pkg.Pkg.Path() != engine.ModPath+"/pkg/ssh" {
+			continue
+		}
+		engine.ForEachInstr(f, func(in ssa.Instruction) {
+			st, ok := in.(*ssa.Store)
+			if !ok {
+				return
+			}
+			fv, _ := engine.LoadedField(st.Addr)
+			if fv == nil || fv.Name() != "PublicKeyCallback" {
+				return
+			}
+			cb := funcValueOf(p, st.Val)
+			if cb == nil {
+				c.Undecide(p.FuncName(f)+">PublicKeyCallback", in.Pos(), "the public-key callback is not a function the analysis can resolve")
+				return
+			}
+			n++
+			var keyParam *ssa.Parameter
+			for _, pr := range cb.Params {
+				if engine.IsNamed(pr.Type(), "golang.org/x/crypto/ssh", "PublicKey") {
+					keyParam = pr
+				}
+			}
+			c.AllPaths(p.FuncName(cb)+">accepts-listed-key", engine.PathCheck{Fn: cb, Sink: engine.IsReturn, Pred: func(ps *engine.PathState) string {
+				r := ps.Sink.(*ssa.Return)
+				if len(r.Results) != 2 {
+					return ""
+				}
+				errRes := ps.Resolve(r.Results[1])
+				if !engine.IsNilConst(errRes) {
+					if isNil, known := ps.NilFact(errRes); !(known && isNil) {
+						return "" // a refusing exit
+					}
+				}
+				var table ssa.Value
+				for _, l := range ps.Lits {
+					if l.Op != token.ILLEGAL || !l.Val {
+						continue
+					}
+					ex, ok := l.X.(*ssa.Extract)
+					if !ok || ex.Index != 1 {
+						continue
+					}
+					lk, ok := ex.Tuple.(*ssa.Lookup)
+					if !ok || !lk.CommaOk {
+						continue
+					}
+					if _, isMap := lk.X.Type().Underlying().(*types.Map); !isMap {
+						continue
+					}
+					if keyParam != nil {
+						if src := engine.Provenance(lk.Index, engine.ProvOpts{}); !src.Params[keyParam] {
+							continue
+						}
+					}
+					table = lk.X
+				}
+				if table == nil {
+					return "the offered key is accepted on a path where it was not found in the table of authorised keys"
+				}
+				// the table is made within this call …
+				src := engine.DeepSources(p, table)
+				stale := ""
+				made := 0
+				for v := range src.Values {
+					mm, ok := v.(*ssa.MakeMap)
+					if !ok {
+						continue
+					}
+					made++
+					if par := mm.Parent(); par != cb && !fnReachesFn(cb, par) {
+						stale = p.FuncName(par)
+					}
+				}
+				if made == 0 {
+					for g := range src.Globals {
+						stale = "package variable " + g.Name()
+					}
+					for fv := range src.Fields {
+						if _, isMap := fv.Type().Underlying().(*types.Map); isMap {
+							stale = "field " + fv.Name()
+						}
+					}
+				}
+				if stale == "" {
+					return ""
+				}
+				// … or emptied before it is filled
+				cleared := false
+				for _, g := range append([]*ssa.Function{cb}, allAnon(cb)...) {
+					engine.ForEachInstr(g, func(x ssa.Instruction) {
+						if call, ok := x.(*ssa.Call); ok {
+							if b, ok := call.Call.Value.(*ssa.Builtin); ok && b.Name() == "clear" {
+								cleared = true
+							}
+						}
+					})
+				}
+				if cleared {
+					return ""
+				}
+				return "the table of authorised keys outlives the call (made in " + stale + ") and is never emptied: a key removed from the file keeps authenticating until frps restarts"
+			}}, "accepted ⇒ listed in the file as it is now")
+		})
+	}
+	c.Floor(n, 1)
 }
